@@ -10,6 +10,7 @@ from vlib.term import z, to_coq
 
 ID = 'C01'
 PROP_FILE = 'Props/C01.v'
+EXTRA_PROP_FILES = ['Props/C01Src.v']     # K1 source tie (tools/props/src_translate.py), see docs/reports/SRC.md
 EVAL_FILES = ['Model/StreamSys.v', 'Oracle/C01Oracle.v']
 CRATES = ['c01']
 MODES = ['debug', 'release']
